@@ -580,7 +580,12 @@ def scheme_gate_within_origin_table(ctx: Context, rule: str, why: str) -> None:
         if isinstance(c, ast.ClassDef) and c.name == "URL":
             for f in c.body:
                 if isinstance(f, ast.FunctionDef) and f.name == "origin":
+                    mconsts = {st.targets[0].id: st.value for st in models.body if isinstance(st, ast.Assign) and len(st.targets) == 1 and isinstance(st.targets[0], ast.Name)}
+                    mconsts.update({st.target.id: st.value for st in models.body if isinstance(st, ast.AnnAssign) and isinstance(st.target, ast.Name) and st.value is not None})
+                    flocals = {st.targets[0].id: st.value for st in ast.walk(f) if isinstance(st, ast.Assign) and len(st.targets) == 1 and isinstance(st.targets[0], ast.Name)}
                     for n in ast.walk(f):
+                        if isinstance(n, ast.Subscript) and isinstance(n.value, ast.Name) and isinstance(flocals.get(n.value.id, mconsts.get(n.value.id)), ast.Dict):
+                            n = ast.copy_location(ast.Subscript(value=flocals.get(n.value.id, mconsts.get(n.value.id)), slice=n.slice, ctx=n.ctx), n)
                         if isinstance(n, ast.Subscript) and isinstance(n.value, ast.Dict) and norm(n.slice) == "self.scheme":
                             keys = {k.value for k in n.value.keys if isinstance(k, ast.Constant) and isinstance(k.value, bytes)}
                     if keys is None:
@@ -601,7 +606,15 @@ def scheme_gate_within_origin_table(ctx: Context, rule: str, why: str) -> None:
         if fn is None:
             raise AnalysisError(f"{rule}: anchor vanished: {cls_name}.{fn_name}")
         binds = {st.targets[0].id: st.value for st in ast.walk(fn) if isinstance(st, ast.Assign) and len(st.targets) == 1 and isinstance(st.targets[0], ast.Name)}
+        consts = {st.targets[0].id: st.value for st in t.body if isinstance(st, ast.Assign) and len(st.targets) == 1 and isinstance(st.targets[0], ast.Name)}
+        consts.update({st.target.id: st.value for st in t.body if isinstance(st, ast.AnnAssign) and isinstance(st.target, ast.Name) and st.value is not None})
         for n in ast.walk(fn):
+            if isinstance(n, ast.If) and isinstance(n.test, ast.Compare) and len(n.test.ops) == 1 and isinstance(n.test.comparators[0], ast.Name):
+                lit = consts.get(n.test.comparators[0].id)       # the admitted set as a module-level constant
+                if isinstance(lit, ast.Call) and norm(lit.func) in ("frozenset", "set", "tuple") and len(lit.args) == 1:
+                    lit = lit.args[0]
+                if isinstance(lit, (ast.Tuple, ast.List, ast.Set)):
+                    n = ast.copy_location(ast.If(test=ast.copy_location(ast.Compare(left=n.test.left, ops=n.test.ops, comparators=[lit]), n.test), body=n.body, orelse=n.orelse), n)
             if not (isinstance(n, ast.If) and isinstance(n.test, ast.Compare) and len(n.test.ops) == 1 and isinstance(n.test.ops[0], ast.NotIn)
                     and isinstance(n.test.comparators[0], (ast.Tuple, ast.List, ast.Set))
                     and any(isinstance(r, ast.Raise) and "UnsupportedProtocol" in ast.unparse(r) for r in ast.walk(n))):
